@@ -558,9 +558,12 @@ Record vstate := {
   vs_functions : list str; vs_results : list str; vs_params : list str; vs_attrs : list str;
   vs_enums : list str; vs_enum_insts : list str;             (* keys of the flat dictionaries, insertion order *)
   vs_stack : list frame;                                       (* top first *)
-  vs_modfull : str; vs_modname : str;                          (* mypy_file.fullname / .name *)
-  vs_log : list logrec;
-  vs_amb : bool }.
+  vs_modfull : str; vs_modname : str }.                        (* mypy_file.fullname / .name *)
+
+(* what a step adds to the log, and whether it met an order-dependent alias choice; kept outside the state *)
+Definition W := (list logrec * bool)%type.
+Definition w0 : W := ([], false).
+Definition wapp (a b : W) : W := (fst a ++ fst b, snd a || snd b).
 
 Definition key_add (k : str) (l : list str) : list str := if mem_str k l then l else l ++ [k].
 
@@ -691,15 +694,8 @@ Definition tenv_of (al : aliases) (st : vstate) : res tenv :=
 Definition set_stack (st : vstate) (s : list frame) : vstate :=
   {| vs_modules := vs_modules st; vs_classes := vs_classes st; vs_rmap := vs_rmap st; vs_functions := vs_functions st;
      vs_results := vs_results st; vs_params := vs_params st; vs_attrs := vs_attrs st; vs_enums := vs_enums st;
-     vs_enum_insts := vs_enum_insts st; vs_stack := s; vs_modfull := vs_modfull st; vs_modname := vs_modname st;
-     vs_log := vs_log st; vs_amb := vs_amb st |}.
+     vs_enum_insts := vs_enum_insts st; vs_stack := s; vs_modfull := vs_modfull st; vs_modname := vs_modname st |}.
 Definition push (st : vstate) (fr : frame) : vstate := set_stack st (fr :: vs_stack st).
-Definition add_log (st : vstate) (l : list logrec) (amb : bool) : vstate :=
-  {| vs_modules := vs_modules st; vs_classes := vs_classes st; vs_rmap := vs_rmap st; vs_functions := vs_functions st;
-     vs_results := vs_results st; vs_params := vs_params st; vs_attrs := vs_attrs st; vs_enums := vs_enums st;
-     vs_enum_insts := vs_enum_insts st; vs_stack := vs_stack st; vs_modfull := vs_modfull st; vs_modname := vs_modname st;
-     vs_log := vs_log st ++ l; vs_amb := vs_amb st || amb |}.
-
 (* ---- modules ---- *)
 Definition imports_of (m : mfile) : list qimport * list str :=
   fold_left (fun acc i =>
@@ -728,7 +724,7 @@ Definition enter_module (st : vstate) (m : mfile) : vstate :=
   {| vs_modules := vs_modules st; vs_classes := vs_classes st; vs_rmap := rm; vs_functions := vs_functions st;
      vs_results := vs_results st; vs_params := vs_params st; vs_attrs := vs_attrs st; vs_enums := vs_enums st;
      vs_enum_insts := vs_enum_insts st; vs_stack := FModule md :: vs_stack st; vs_modfull := mf_fullname m;
-     vs_modname := mf_name m; vs_log := vs_log st; vs_amb := vs_amb st |}.
+     vs_modname := mf_name m |}.
 
 Definition leave_module (st : vstate) : res vstate :=
   match vs_stack st with
@@ -736,7 +732,7 @@ Definition leave_module (st : vstate) : res vstate :=
     Ok {| vs_modules := dict_set (m_id md) md (vs_modules st); vs_classes := vs_classes st; vs_rmap := vs_rmap st;
           vs_functions := vs_functions st; vs_results := vs_results st; vs_params := vs_params st; vs_attrs := vs_attrs st;
           vs_enums := vs_enums st; vs_enum_insts := vs_enum_insts st; vs_stack := rest; vs_modfull := vs_modfull st;
-          vs_modname := vs_modname st; vs_log := vs_log st; vs_amb := vs_amb st |}
+          vs_modname := vs_modname st |}
   | _ => Err AssertionError
   end.
 
@@ -803,7 +799,7 @@ Definition ctor_fulldoc (d : docs) (c : cdef) : res str :=
     | _ => Ok cur
     end) (cd_defs c) (Ok []).
 
-Definition enter_class (al : aliases) (d : docs) (st : vstate) (c : cdef) : res vstate :=
+Definition enter_class (al : aliases) (d : docs) (st : vstate) (c : cdef) : res (vstate * W) :=
   let id := id_from_stack st (cd_name c) in
   do doc <- doc_class d (cd_fullname c);
   do env <- tenv_of al st;
@@ -813,7 +809,7 @@ Definition enter_class (al : aliases) (d : docs) (st : vstate) (c : cdef) : res 
   do cfd <- ctor_fulldoc d c;
   do pub <- is_public st (cd_name c) (cd_fullname c);
   let cl := mkcls id (cd_name c) sups pub doc None cfd exc reexp [] [] [] (fst tps) in
-  Ok (push (add_log st [] (amb || snd tps)) (FClass cl)).
+  Ok (push st (FClass cl), ([], amb || snd tps)).
 
 Definition cls_add_class (p c : cls) : cls :=
   mkcls (c_id p) (c_name p) (c_supers p) (c_public p) (c_doc p) (c_ctor p) (c_ctor_fulldoc p) (c_exc p) (c_reexported_by p)
@@ -840,8 +836,7 @@ Definition mod_add_enum (m : module_) (e : enum_) : module_ :=
 Definition with_classes (st : vstate) (cs : list (str * cls)) (s : list frame) : vstate :=
   {| vs_modules := vs_modules st; vs_classes := cs; vs_rmap := vs_rmap st; vs_functions := vs_functions st;
      vs_results := vs_results st; vs_params := vs_params st; vs_attrs := vs_attrs st; vs_enums := vs_enums st;
-     vs_enum_insts := vs_enum_insts st; vs_stack := s; vs_modfull := vs_modfull st; vs_modname := vs_modname st;
-     vs_log := vs_log st; vs_amb := vs_amb st |}.
+     vs_enum_insts := vs_enum_insts st; vs_stack := s; vs_modfull := vs_modfull st; vs_modname := vs_modname st |}.
 
 Definition leave_class (st : vstate) : res vstate :=
   match vs_stack st with
@@ -911,7 +906,7 @@ Definition parse_parameter (env : tenv) (d : docs) (st : vstate) (f : fdef) (fid
 
 Definition tvar_pair (t : ty) : list (str * option ty) := match t with TTypeVar n u => [(n, u)] | _ => [] end.
 
-Definition enter_func (al : aliases) (d : docs) (pref_doc warn : bool) (st : vstate) (f : fdef) : res vstate :=
+Definition enter_func (al : aliases) (d : docs) (pref_doc warn : bool) (st : vstate) (f : fdef) : res (vstate * W) :=
   let fid := id_from_stack st (fn_name f) in
   do pub <- is_public st (fn_name f) (fn_fullname f);
   do doc <- doc_func d (fn_fullname f);
@@ -937,7 +932,7 @@ Definition enter_func (al : aliases) (d : docs) (pref_doc warn : bool) (st : vst
   let fn := {| f_id := fid; f_name := fn_name f; f_doc := doc; f_public := pub; f_static := fn_static f;
                f_classm := fn_class f; f_prop := fn_property f; f_rdocs := rdocs;
                f_tvars := flat_map tvar_pair tvs_sorted; f_results := results; f_reexported_by := reexp; f_params := params |} in
-  Ok (push (add_log st (plog ++ wlog ++ rlog) (pamb || ramb)) (FFunc fn)).
+  Ok (push st (FFunc fn), (plog ++ wlog ++ rlog, pamb || ramb)).
 
 Definition leave_func (st : vstate) : res vstate :=
   match vs_stack st with
@@ -955,8 +950,7 @@ Definition leave_func (st : vstate) : res vstate :=
             vs_results := fold_left (fun acc r => key_add (r_id r) acc) (f_results f) (vs_results st);
             vs_params := fold_left (fun acc p => key_add (p_id p) acc) (f_params f) (vs_params st);
             vs_attrs := vs_attrs st; vs_enums := vs_enums st; vs_enum_insts := vs_enum_insts st;
-            vs_stack := parent' :: r'; vs_modfull := vs_modfull st; vs_modname := vs_modname st; vs_log := vs_log st;
-            vs_amb := vs_amb st |}
+            vs_stack := parent' :: r'; vs_modfull := vs_modfull st; vs_modname := vs_modname st |}
     end
   | _ => Err AssertionError
   end.
@@ -976,7 +970,7 @@ Definition leave_enum (st : vstate) : res vstate :=
             vs_results := vs_results st; vs_params := vs_params st; vs_attrs := vs_attrs st;
             vs_enums := key_add (e_id e) (vs_enums st); vs_enum_insts := vs_enum_insts st;
             vs_stack := FModule (mod_add_enum m e) :: r'; vs_modfull := vs_modfull st; vs_modname := vs_modname st;
-            vs_log := vs_log st; vs_amb := vs_amb st |}
+            |}
     | _ => Ok (set_stack st rest)
     end
   | _ => Err AssertionError
@@ -1073,7 +1067,7 @@ Definition parse_attributes (env : tenv) (d : docs) (st : vstate) (lv : expr) (u
   | _ => Err AssertionError
   end.
 
-Definition enter_assign (al : aliases) (d : docs) (st : vstate) (lvs : list expr) (ut : option mtype) : res vstate :=
+Definition enter_assign (al : aliases) (d : docs) (st : vstate) (lvs : list expr) (ut : option mtype) : res (vstate * W) :=
   do env <- tenv_of al st;
   do items <- fold_left (fun acc lv =>
       do cur <- acc;
@@ -1095,7 +1089,7 @@ Definition enter_assign (al : aliases) (d : docs) (st : vstate) (lvs : list expr
         Ok (fst cur ++ map (fun n => AIEnumInst (e_id e ++ K"/" ++ n) n) names, snd cur)
       | _ => Ok cur
       end) lvs (Ok ([], false));
-  Ok (push (add_log st [] (snd items)) (FAssign (fst items))).
+  Ok (push st (FAssign (fst items)), ([], snd items)).
 
 Definition enum_add_instance (e : enum_) (id name : str) : enum_ :=
   {| e_id := e_id e; e_name := e_name e; e_doc := e_doc e; e_instances := e_instances e ++ [(id, name)] |}.
@@ -1123,7 +1117,7 @@ Definition leave_assign (st : vstate) : res vstate :=
         Ok {| vs_modules := vs_modules st; vs_classes := vs_classes st; vs_rmap := vs_rmap st; vs_functions := vs_functions st;
               vs_results := vs_results st; vs_params := vs_params st; vs_attrs := attrs; vs_enums := vs_enums st;
               vs_enum_insts := insts; vs_stack := stack; vs_modfull := vs_modfull st; vs_modname := vs_modname st;
-              vs_log := vs_log st; vs_amb := vs_amb st |}
+              |}
       | _ => Err AssertionError
       end
     end
@@ -1156,50 +1150,54 @@ Section Walk.
   Variables (al : aliases) (d : docs) (pref_doc warn : bool).
 
   (* a function node: enter, the assignment statements of __init__ (top level of the body only), leave *)
-  Definition walk_func (st : vstate) (f : fdef) : res vstate :=
-    do st1 <- enter_func al d pref_doc warn st f;
-    do st2 <- (if str_eqb (fn_name f) (K"__init__") then
-                 fold_left (fun acc s =>
-                   do cur <- acc;
-                   match s with
-                   | BAssign lvs ut => do s1 <- enter_assign al d cur lvs ut; leave_assign s1
-                   | _ => Ok cur
-                   end) (fn_body f) (Ok st1)
-               else Ok st1);
-    leave_func st2.
+  Definition walk_func (st : vstate) (f : fdef) : res (vstate * W) :=
+    do e1 <- enter_func al d pref_doc warn st f;
+    do e2 <- (if str_eqb (fn_name f) (K"__init__") then
+                fold_left (fun acc s =>
+                  do cur <- acc;
+                  match s with
+                  | BAssign lvs ut => do s1 <- enter_assign al d (fst cur) lvs ut; do s2 <- leave_assign (fst s1); Ok (s2, wapp (snd cur) (snd s1))
+                  | _ => Ok cur
+                  end) (fn_body f) (Ok e1)
+              else Ok e1);
+    do s3 <- leave_func (fst e2);
+    Ok (s3, snd e2).
 
-  Fixpoint walk_member (st : vstate) (m : cmember) {struct m} : res vstate :=
+  Fixpoint walk_member (st : vstate) (m : cmember) {struct m} : res (vstate * W) :=
     match m with
     | CMFunc f | CMDeco f => walk_func st f
     | CMOver _ is_prop impl item0 =>
       match impl with
       | OIFunc f => walk_func st f
-      | OIOther => Ok st
+      | OIOther => Ok (st, w0)
       | OINone => match is_prop, item0 with
                   | true, OTDeco f => walk_func st f
-                  | _, _ => Ok st
+                  | _, _ => Ok (st, w0)
                   end
       end
-    | CMAssign lvs ut => do s1 <- enter_assign al d st lvs ut; leave_assign s1
+    | CMAssign lvs ut => do s1 <- enter_assign al d st lvs ut; do s2 <- leave_assign (fst s1); Ok (s2, snd s1)
     | CMClass c =>
       let enum := is_enum_def c in
-      do st1 <- (if enum then enter_enum d st c else enter_class al d st c);
-      do st2 <- (fix go (st : vstate) (ms : list cmember) : res vstate :=
-                   match ms with
-                   | [] => Ok st
-                   | x :: r => if class_child x && negb (is_placeholder x)
-                               then do s' <- walk_member st x; go s' r else go st r
-                   end) st1 (cd_defs c);
-      if enum then leave_enum st2 else leave_class st2
-    | CMOther _ _ => Ok st
+      do e1 <- (if enum then do s <- enter_enum d st c; Ok (s, w0) else enter_class al d st c);
+      do e2 <- (fix go (cur : vstate * W) (ms : list cmember) : res (vstate * W) :=
+                  match ms with
+                  | [] => Ok cur
+                  | x :: r => if class_child x && negb (is_placeholder x)
+                              then do s' <- walk_member (fst cur) x; go (fst s', wapp (snd cur) (snd s')) r else go cur r
+                  end) e1 (cd_defs c);
+      do s3 <- (if enum then leave_enum (fst e2) else leave_class (fst e2));
+      Ok (s3, snd e2)
+    | CMOther _ _ => Ok (st, w0)
     end.
 
-  Definition walk_module (st : vstate) (m : mfile) : res vstate :=
+  Definition walk_module (st : vstate) (m : mfile) : res (vstate * W) :=
     let st1 := enter_module st m in
-    do st2 <- fold_left (fun acc x =>
-                do cur <- acc;
-                if module_child x && negb (is_placeholder x) then walk_member cur x else Ok cur) (mf_defs m) (Ok st1);
-    leave_module st2.
+    do e2 <- fold_left (fun acc x =>
+               do cur <- acc;
+               if module_child x && negb (is_placeholder x)
+               then do s' <- walk_member (fst cur) x; Ok (fst s', wapp (snd cur) (snd s')) else Ok cur) (mf_defs m) (Ok (st1, w0));
+    do s3 <- leave_module (fst e2);
+    Ok (s3, snd e2).
 End Walk.
 
 (* ======================================================================================================== *)
@@ -1207,7 +1205,7 @@ End Walk.
 (* ======================================================================================================== *)
 Definition init_vstate : vstate :=
   {| vs_modules := []; vs_classes := []; vs_rmap := []; vs_functions := []; vs_results := []; vs_params := []; vs_attrs := [];
-     vs_enums := []; vs_enum_insts := []; vs_stack := []; vs_modfull := []; vs_modname := []; vs_log := []; vs_amb := false |}.
+     vs_enums := []; vs_enum_insts := []; vs_stack := []; vs_modfull := []; vs_modname := [] |}.
 
 Definition gentry_path (g : gentry) : res str :=
   match g with GMod m => Ok (mf_path m) | GExt p _ => Ok p | GNoTree _ => Err ValueError end.
@@ -1228,14 +1226,15 @@ Definition front (v : view) : res outcome :=
   | Files walkable packages =>
     do trees <- select_asts (v_graph v) walkable packages;
     do al <- get_aliases (v_package v) (v_aliases v) [];
-    do st <- fold_left (fun acc g =>
-               do cur <- acc;
-               match g with
-               | GMod m => walk_module al (v_docs v) (v_pref_doc v) (v_warn v) cur m
-               | _ => Err OracleMiss
-               end) trees (Ok init_vstate);
+    do e <- fold_left (fun acc g =>
+              do cur <- acc;
+              match g with
+              | GMod m => do s' <- walk_module al (v_docs v) (v_pref_doc v) (v_warn v) (fst cur) m; Ok (fst s', wapp (snd cur) (snd s'))
+              | _ => Err OracleMiss
+              end) trees (Ok (init_vstate, w0));
+    let st := fst e in
     Ok {| o_api := {| api_package := v_package v; api_modules := map snd (vs_modules st); api_classes := vs_classes st;
                       api_reexport_map := vs_rmap st |};
           o_flat := [vs_functions st; vs_results st; vs_params st; vs_attrs st; vs_enums st; vs_enum_insts st];
-          o_log := vs_log st; o_amb := vs_amb st |}
+          o_log := fst (snd e); o_amb := snd (snd e) |}
   end.
